@@ -253,7 +253,7 @@ def task_regimes(p, cse, tier, seed):
 
 def programs_for(tier, seed):
     if tier == "quick":
-        return [CP.P1(), CP.P3(), CP.P8(), CP.P10(), CP.P12(), CP.P14(), CP.P17(), CP.P19(), CP.P20(), CP.P21(), CP.P22(), CP.P24()]
+        return [CP.P1(), CP.P3(), CP.P8(), CP.P10(), CP.P12(), CP.P14(), CP.P17(), CP.P19(), CP.P20(), CP.P21(), CP.P22(), CP.P24(), CP.P7()]
     ps = CP.all_fixed() + [CP.P21(), CP.P22(), CP.P24()] + CP.presence_variants(CP.P3())[1:] + CP.presence_variants(CP.P10())[1:]
     ps += [CP.random_program(seed, i) for i in range(10)]
     return ps
